@@ -113,10 +113,12 @@ def observe(p):
 
 def oracle_solver_independence(R, tier, seed):
     O = R.oracle("solver-start-and-history-independence")
-    cases = [("tube", surf_tube, dict(Mach=0.84, alpha=3.0))] + ([] if tier == "quick" else [("wingbox", surf_wingbox, WB_FLOW)])
+    # the wing box with distributed fuel and weight relief is in the quick tier too, and the histories change the load factor:
+    # a seeded change that cached the fuel loads across analyses (keyed without the load factor) was missed without them
+    cases = [("tube", surf_tube, dict(Mach=0.84, alpha=3.0)), ("wingbox-fuel", surf_wingbox, dict(WB_FLOW, load_factor=2.5))]
     for name, mk, flow in cases:
         ref = None
-        for sname, sfn in _solvers():
+        for sname, sfn in (_solvers() if (name == "tube" or tier != "quick") else _solvers()[:1]):
             O["cases"] += 1
             try:
                 p = structs.build_aerostruct([mk()], solver=sfn, **flow)
@@ -131,13 +133,13 @@ def oracle_solver_independence(R, tier, seed):
             if bad: O["failures"].append({"key": "C12:%s:state-depends-on-solver(%s)" % (name, sname), "case": {"model": name, "solver": sname, **{k: (float(v) if np.isscalar(v) else v) for k, v in flow.items()}}, "errors": bad})
             else: O["ok"] += 1
         # initial guess / previously analysed design point
-        for hist in ([{"alpha": 6.0}], [{"alpha": -2.0, "Mach_number": 0.5}, {"alpha": 5.0}]):
+        for hist in ([{"alpha": 6.0}], [{"alpha": -2.0, "Mach_number": 0.5}, {"alpha": 5.0}], [{"load_factor": 1.0}], [{"load_factor": 1.0, "alpha": 4.0}, {"load_factor": -1.0}]):
             O["cases"] += 1
             p = structs.build_aerostruct([mk()], **flow); tighten(p)
             for pt in hist:
                 for k, v in pt.items(): p.set_val(k, v)
                 _quiet(p.run_model)
-            p.set_val("alpha", flow["alpha"]); p.set_val("Mach_number", flow["Mach"]); _quiet(p.run_model)
+            p.set_val("alpha", flow["alpha"]); p.set_val("Mach_number", flow["Mach"]); p.set_val("load_factor", flow.get("load_factor", 1.0)); _quiet(p.run_model)
             ob = observe(p)
             bad = {k: rel(ob[k], ref[k]) for k in ob if rel(ob[k], ref[k]) > 2e-6}
             if bad: O["failures"].append({"key": "C12:%s:state-depends-on-previous-design-point" % name, "case": {"model": name, "history": hist}, "errors": bad})
